@@ -41,7 +41,8 @@ def k1_grids(rng, thorough):
     g = {}
     R = range(1, 7 if thorough else 5)
     g["decodeRotation"] = [[i, K, T] for K in R for T in R for i in range(K * T)]
-    g["reduceLabel"] = [[lab, r] for lab in range(0, 13) for r in (-1, 0, 1, 2, 3, 5)]
+    g["reduceLabel"] = [[lab, r] for lab in list(range(0, 13)) + [255, 256, 257, 300, 374, 511, 1000]
+                        for r in (-1, 0, 1, 2, 3, 5)]
     g["loaderRemainder"] = [[b, K, T, 0] for b in (True, False) for K in R for T in R]
     g["groupRemainder"] = [[b, T] for b in (True, False) for T in R]
     g["rotRange"] = [[Fraction(a, 4), Fraction(b, 4)] for a in range(0, 40, 3) for b in (1, 2, 4, 6, 10)]
@@ -76,7 +77,7 @@ def _stub_class(scores):
 
 def _rotations(K):
     from scipy.spatial.transform import Rotation
-    angs = [0, 90, 180, 270, 45, 135][:K]
+    angs = [0, 90, 180, 270, 45, 135][:K] if K <= 6 else [360.0 * i / K for i in range(K)]
     return [Rotation.from_euler("z", a, degrees=True) for a in angs]
 
 
@@ -91,21 +92,25 @@ def correspondence(rng, thorough):
     import polars as pl
     from acryo import SubtomogramLoader, Molecules
     lines, impl = [], []
-    stats = {"model": 0, "loader": 0, "group": 0, "ties": 0, "T1": 0, "K1": 0}
+    stats = {"model": 0, "loader": 0, "group": 0, "ties": 0, "T1": 0, "K1": 0, "flat_ge_256": 0}
     maxn = 5 if thorough else 4
     tomo = np.zeros((12, 12, 12), dtype=np.float32)
     with dask.config.set(scheduler="synchronous"):
-        for T in range(1, maxn + 1):
-            for K in range(1, maxn + 1):
+        grid = [(T, K, None) for T in range(1, maxn + 1) for K in range(1, maxn + 1)]
+        # more than 256 candidates: flat indices beyond the uint8 range of the label column
+        grid += [(3, 90, [256, 257, 258, 269]), (5, 53, [259, 263])] + ([(7, 40, [256, 279])] if thorough else [])
+        for T, K, reps in grid:
+            if True:
                 if T * K == 1:
                     continue
                 templates = [np.full((4, 4, 4), t + 1, dtype=np.float32) for t in range(T)]
-                for rep in range(T * K + 1):
+                for rep in (range(T * K + 1) if reps is None else reps):
                     sc = [int(x) for x in rng.integers(0, 6, size=T * K)]
                     if rep < T * K:
                         sc[rep] = 9          # unique maximum at candidate `rep`
                     else:
                         stats["ties"] += 1   # ties allowed: first maximum wins
+                    stats["flat_ge_256"] += rep >= 256
                     Stub = _stub_class(sc)
                     rots = _rotations(K) if K > 1 else None
                     stats["T1"] += T == 1
@@ -217,8 +222,59 @@ def run_case(inp):
     return viols
 
 
+def run_stub_case(inp):
+    """Prescribed candidate scores (unique maximum at flat index `best`) through the loader paths:
+    the stored label must be the template of the best candidate and the stored rotation its rotation,
+    also for candidate sets larger than 256."""
+    import dask
+    from acryo import SubtomogramLoader, Molecules
+    T, K, best, via = inp["T"], inp["K"], inp["best"], inp["via"]
+    sc = [0] * (T * K)
+    sc[best] = 9
+    Stub = _stub_class(sc)
+    rots = _rotations(K) if K > 1 else None
+    templates = [np.full((4, 4, 4), t + 1, dtype=np.float32) for t in range(T)]
+    tomo = np.zeros((12, 12, 12), dtype=np.float32)
+    mole = Molecules(np.array([[6.0, 6.0, 6.0]]), features={"g": [0]})
+    kw = dict(rotations=rots) if rots is not None else {}
+    viols = []
+    with dask.config.set(scheduler="synchronous"):
+        ld = SubtomogramLoader(tomo, mole, order=0, output_shape=(4, 4, 4))
+        try:
+            if via == "loader":
+                out = ld.align_multi_templates(templates, alignment_model=Stub, **kw)
+            elif via == "align_stack":
+                out = ld.align(np.stack(templates, axis=0), alignment_model=Stub, **kw)
+            elif via == "group_list":
+                out = list(ld.groupby("g").align_multi_templates(templates, alignment_model=Stub, **kw))[0][1]
+            else:
+                out = list(ld.groupby("g").align_multi_templates({0: templates}, alignment_model=Stub, **kw))[0][1]
+        except Exception as e:  # noqa: BLE001
+            return [{"clause": "no-error", "desc": f"{via} raised {type(e).__name__}: {str(e)[:100]}", "input": dict(inp)}]
+    f = out.molecules.features
+    j, k = best % T, best // T
+    lab = int(f["labels"][0])
+    if lab != j:
+        viols.append({"clause": "label", "input": dict(inp),
+                      "desc": f"stored label {lab}, expected template {j} of best candidate {best} (T={T}, K={K}, via={via})"})
+    if rots is not None:
+        rv = np.array([f["align-dzrot"][0], f["align-dyrot"][0], f["align-dxrot"][0]], dtype=float)
+        m = Stub(templates, rotations=rots)
+        want = __import__("scipy.spatial.transform", fromlist=["Rotation"]).Rotation.from_quat(
+            np.asarray(m.quaternions[k], dtype=np.float64)).as_rotvec()
+        if np.abs(rv - want).max() > 1e-3 and not np.isclose(np.linalg.norm(want), np.pi, atol=1e-3):
+            viols.append({"clause": "rotation", "input": dict(inp),
+                          "desc": f"stored rotation vector {rv.tolist()} != rotation {k} of best candidate {best}"})
+    return viols
+
+
 def oracle(rng, thorough, deep=False, hints=None):
     cases = []
+    big = [(3, 90), (5, 53), (7, 40), (6, 50)]
+    for i in range(8 if (thorough or deep) else 3):
+        T, K = big[i % len(big)]
+        cases.append(dict(kind="stub", T=T, K=K, best=int(rng.integers(256, T * K)),
+                          via=["loader", "align_stack", "group_list", "group_map"][int(rng.integers(0, 4))]))
     Ts = (1, 2, 3)
     Ks = (1, 3, 4) if (thorough or deep) else (1, 3)
     for T in Ts:
@@ -242,10 +298,11 @@ def oracle(rng, thorough, deep=False, hints=None):
     stats = {"by_via": {}, "samples": [{"oracle_case": c} for c in cases[:2]]}
     for inp in cases:
         stats["by_via"][inp["via"]] = stats["by_via"].get(inp["via"], 0) + 1
-        viols += run_case(inp)
+        viols += run_stub_case(inp) if inp.get("kind") == "stub" else run_case(inp)
     return len(cases), viols, stats
 
 
 def replay(payload):
-    v = run_case(dict(payload["input"]))
+    inp = dict(payload["input"])
+    v = run_stub_case(inp) if inp.get("kind") == "stub" else run_case(inp)
     return {"violated": bool(v), "violations": v}
